@@ -33,6 +33,7 @@ import (
 	"github.com/bokysan/socketace/v2/internal/server"
 	"github.com/bokysan/socketace/v2/internal/util/addr"
 	"github.com/bokysan/socketace/v2/internal/util/cert"
+	mdns "github.com/miekg/dns"
 )
 
 // ---------------------------------------------------------------- certificates
@@ -278,6 +279,7 @@ type Relay struct {
 	down   []byte
 	conns  []net.Conn
 	Accept int
+	First  []int // first client->server byte of every accepted connection (-1 = none seen yet)
 }
 
 func NewRelay(to string) (*Relay, error) {
@@ -300,20 +302,27 @@ func NewRelay(to string) (*Relay, error) {
 			r.mu.Lock()
 			r.conns = append(r.conns, c, d)
 			r.Accept++
+			idx := len(r.First)
+			r.First = append(r.First, -1)
 			r.mu.Unlock()
-			go r.pipe(c, d, true)
+			go r.pipeIdx(c, d, true, idx)
 			go r.pipe(d, c, false)
 		}
 	}()
 	return r, nil
 }
 
-func (r *Relay) pipe(from, to net.Conn, up bool) {
+func (r *Relay) pipe(from, to net.Conn, up bool) { r.pipeIdx(from, to, up, -1) }
+
+func (r *Relay) pipeIdx(from, to net.Conn, up bool, idx int) {
 	buf := make([]byte, 32768)
 	for {
 		n, err := from.Read(buf)
 		if n > 0 {
 			r.mu.Lock()
+			if idx >= 0 && r.First[idx] < 0 {
+				r.First[idx] = int(buf[0])
+			}
 			if up && len(r.up) < 8<<20 {
 				r.up = append(r.up, buf[:n]...)
 			} else if !up && len(r.down) < 8<<20 {
@@ -361,7 +370,154 @@ func (r *Relay) Captured() (up, down []byte, accepted int) {
 	return append([]byte(nil), r.up...), append([]byte(nil), r.down...), r.Accept
 }
 
+func (r *Relay) FirstBytes() []int {
+	r.mu.Lock()
+	defer r.mu.Unlock()
+	return append([]int(nil), r.First...)
+}
+
 func (r *Relay) Close() { _ = r.ln.Close(); r.Cut() }
+
+// faultReader wraps the server's standard-input side of a stdio carrier: after Fail(err) every Read returns err
+// (for ever), which is how a carrier failure of a particular error class reaches the multiplexer.
+type faultReader struct {
+	io.ReadCloser
+	mu  sync.Mutex
+	err error
+}
+
+func (f *faultReader) Read(p []byte) (int, error) {
+	f.mu.Lock()
+	e := f.err
+	f.mu.Unlock()
+	if e != nil {
+		return 0, e
+	}
+	n, err := f.ReadCloser.Read(p)
+	f.mu.Lock()
+	e = f.err
+	f.mu.Unlock()
+	if e != nil {
+		return 0, e
+	}
+	return n, err
+}
+
+// Fail makes the reader fail from now on and wakes a Read that is blocked (by feeding one byte through the pipe).
+func (f *faultReader) Fail(err error, wake io.Writer) {
+	f.mu.Lock()
+	f.err = err
+	f.mu.Unlock()
+	go func() { _, _ = wake.Write([]byte{0}) }()
+}
+
+type timeoutErr struct{}
+
+func (timeoutErr) Error() string   { return "read: connection timed out" }
+func (timeoutErr) Timeout() bool   { return true }
+func (timeoutErr) Temporary() bool { return true }
+
+// DnsRelay is a UDP forwarder between the DNS-tunnel client and the DNS server that can refuse record types
+// (SERVFAIL, as a resolver that does not relay them) and lose every datagram during an outage.
+type DnsRelay struct {
+	pc      net.PacketConn
+	to      *net.UDPAddr
+	Addr    string
+	mu      sync.Mutex
+	refuse  map[uint16]bool
+	outage  bool
+	Queries int
+	up      *net.UDPConn
+}
+
+func NewDnsRelay(to string, refuse []uint16) (*DnsRelay, error) {
+	ta, err := net.ResolveUDPAddr("udp", to)
+	if err != nil {
+		return nil, err
+	}
+	pc, err := net.ListenPacket("udp", "127.0.0.1:0")
+	if err != nil {
+		return nil, err
+	}
+	r := &DnsRelay{pc: pc, to: ta, Addr: pc.LocalAddr().String(), refuse: map[uint16]bool{}}
+	for _, t := range refuse {
+		r.refuse[t] = true
+	}
+	go r.serve()
+	return r, nil
+}
+
+func (r *DnsRelay) SetOutage(on bool) { r.mu.Lock(); r.outage = on; r.mu.Unlock() }
+
+func (r *DnsRelay) serve() {
+	// one upstream socket for all queries (the server binds a session to the source address it sees), answers are
+	// routed back by DNS message id
+	up, err := net.DialUDP("udp", nil, r.to)
+	if err != nil {
+		return
+	}
+	r.up = up
+	pending := map[uint16]net.Addr{}
+	var pmu sync.Mutex
+	go func() {
+		ans := make([]byte, 65536)
+		for {
+			k, err := up.Read(ans)
+			if err != nil {
+				return
+			}
+			if k < 2 {
+				continue
+			}
+			id := uint16(ans[0])<<8 | uint16(ans[1])
+			pmu.Lock()
+			from := pending[id]
+			delete(pending, id)
+			pmu.Unlock()
+			r.mu.Lock()
+			out := r.outage
+			r.mu.Unlock()
+			if from != nil && !out {
+				_, _ = r.pc.WriteTo(ans[:k], from)
+			}
+		}
+	}()
+	buf := make([]byte, 65536)
+	for {
+		n, from, err := r.pc.ReadFrom(buf)
+		if err != nil {
+			return
+		}
+		pkt := append([]byte(nil), buf[:n]...)
+		r.mu.Lock()
+		r.Queries++
+		out := r.outage
+		r.mu.Unlock()
+		if out || n < 2 {
+			continue
+		}
+		q := new(mdns.Msg)
+		if err := q.Unpack(pkt); err == nil && len(q.Question) == 1 && r.refuse[q.Question[0].Qtype] {
+			m := new(mdns.Msg)
+			m.SetRcode(q, mdns.RcodeServerFailure)
+			if b, err := m.Pack(); err == nil {
+				_, _ = r.pc.WriteTo(b, from)
+			}
+			continue
+		}
+		pmu.Lock()
+		pending[uint16(pkt[0])<<8|uint16(pkt[1])] = from
+		pmu.Unlock()
+		_, _ = up.Write(pkt)
+	}
+}
+
+func (r *DnsRelay) Close() {
+	_ = r.pc.Close()
+	if r.up != nil {
+		_ = r.up.Close()
+	}
+}
 
 // ---------------------------------------------------------------- rig
 
@@ -384,6 +540,9 @@ type Rig struct {
 	Targets  map[string]*Target
 	AppAddrs map[string]string
 	Relay    *Relay
+	DnsRelay *DnsRelay
+	Fault    *faultReader
+	faultWake io.Writer
 	closers  []func()
 	// ServerAddr is host:port of the server endpoint (tcp / udp carriers)
 	ServerAddr string
@@ -466,7 +625,9 @@ func NewRig(o RigOpts) (*Rig, error) {
 		p1r, p1w := io.Pipe()
 		p2r, p2w := io.Pipe()
 		scheme := "stdio"
-		s := &server.IoServer{Channels: o.Allow, Input: p1r, Output: p2w}
+		r.Fault = &faultReader{ReadCloser: p1r}
+		r.faultWake = p1w
+		s := &server.IoServer{Channels: o.Allow, Input: r.Fault, Output: p2w}
 		if o.Carrier == "stdiotls" {
 			scheme = "stdio+tls"
 			s.ServerConfig = withCert
@@ -478,6 +639,22 @@ func NewRig(o RigOpts) (*Rig, error) {
 		p := freePort("udp")
 		srv = &server.PacketServer{Channels: o.Allow, Address: addr.MustParseAddress(fmt.Sprintf("udp://127.0.0.1:%d", p))}
 		ups = &upstream.Packet{Address: addr.MustParseAddress(fmt.Sprintf("udp://127.0.0.1:%d", p))}
+	case "dnstxt", "dnsrelay":
+		// DNS carrier through a resolver stand-in: dnstxt refuses NULL and PRIVATE queries (the tunnel falls back
+		// to TXT), dnsrelay forwards everything and can simulate an outage
+		p := freePort("udp")
+		srv = &server.DnsServer{Domain: "example.org", SocketServer: server.SocketServer{Channels: o.Allow,
+			Address: addr.MustParseAddress(fmt.Sprintf("dns://127.0.0.1:%d", p))}}
+		var refuse []uint16
+		if o.Carrier == "dnstxt" {
+			refuse = []uint16{10, 65440, 65000}
+		}
+		dr, err := NewDnsRelay(fmt.Sprintf("127.0.0.1:%d", p), refuse)
+		if err != nil {
+			return nil, err
+		}
+		r.DnsRelay = dr
+		ups = &upstream.Dns{Address: addr.MustParseAddress("dns://example.org?direct=false&dns=" + dr.Addr)}
 	case "dns":
 		p := freePort("udp")
 		srv = &server.DnsServer{Domain: "example.org", SocketServer: server.SocketServer{Channels: o.Allow,
@@ -577,6 +754,9 @@ func (r *Rig) Close() {
 	}
 	if r.Relay != nil {
 		r.Relay.Close()
+	}
+	if r.DnsRelay != nil {
+		r.DnsRelay.Close()
 	}
 	for _, t := range r.Targets {
 		t.Close()
